@@ -540,6 +540,23 @@ func (t *SimTransport) invoke(kind string, req any, info *MsgInfo) (any, error) 
 		err := t.rv(&r, &resp)
 		return resp, err
 	case "IS":
+		// Snapshot directories are named after time.Now(); inside the bubble the clock stands still
+		// while code runs. No two snapshot files of one node may be created at the same virtual
+		// instant (impossible with a real clock), so an InstallSnapshot handler never starts at the
+		// instant of the node's previous snapshot file or of another InstallSnapshot handler.
+		for {
+			now := time.Now().UnixNano()
+			t.node.smu.Lock()
+			clash := t.node.lastSnapNano == now || t.node.lastISNano == now
+			if !clash {
+				t.node.lastISNano = now
+			}
+			t.node.smu.Unlock()
+			if !clash {
+				break
+			}
+			time.Sleep(time.Microsecond)
+		}
 		r := *(req.(*raft.InstallSnapshotRequest))
 		r.Bytes = copyBytes(r.Bytes)
 		r.Configuration = copyBytes(r.Configuration)
